@@ -278,6 +278,7 @@ func main() {
 			r.EngineError("replay: %v", err)
 		} else {
 			checkForest(r, ix)
+			wallClock(r) // (wall-clock cases are re-enumerated: their verdict depends on the present)
 		}
 		r.Finish()
 	}
@@ -285,7 +286,7 @@ func main() {
 	if r.Thorough() {
 		maxOff = 5
 	}
-	r.SetRule(fmt.Sprintf("certificate forests as tuples over %d dimensions %v (sizes %v): all tuples with <=%d dimensions off the valid baseline, plus the full product of the type/name/time dimensions; VerifyLeaf == reference predicate on construction metadata; every single bit of a verified leaf and of its presented intermediate flipped; VerifyParent on every ordered pair of a 14-certificate pool; chains from SelfSignRoot/IssueIntermediate/IssueLeafAt over an issue-time x validity grid verified at issue, mid, expiry-1s (accept) and issue-1s, expiry (reject). distinct_nontrivial = distinct forest tuples evaluated.", len(dims), dimNames, dims, maxOff))
+	r.SetRule(fmt.Sprintf("certificate forests as tuples over %d dimensions %v (sizes %v): all tuples with <=%d dimensions off the valid baseline, plus the full product of the type/name/time dimensions; VerifyLeaf == reference predicate on construction metadata; every single bit of a verified leaf and of its presented intermediate flipped; VerifyParent on every ordered pair of a 14-certificate pool; the 8 valid/expired combinations of the three windows x 3 intermediate placements verified at the wall clock (CurrentTime zero, forest built around the real present, all windows >= 500 s from it); chains from SelfSignRoot/IssueIntermediate/IssueLeafAt over an issue-time x validity grid verified at issue, mid, expiry-1s (accept) and issue-1s, expiry (reject). distinct_nontrivial = distinct forest tuples evaluated.", len(dims), dimNames, dims, maxOff))
 	list := seqx.ProductList(dims, maxOff)
 	// full product of the five type/name/time dims (others at baseline)
 	full := seqx.ProductList([]int{5, 6, 6, 6, 6, 6}, -1)
@@ -390,11 +391,48 @@ func main() {
 	r.Set("verifyparent_pairs", len(pool)*len(pool))
 
 	positive(r)
+	wallClock(r)
 	r.Assume("validity is the half-open interval [IssuedAt, ExpiresAt), the convention issue.go itself uses for the parent at issuance; hash/signature collisions are impossible")
 	r.Finish()
 }
 
 // positive: chains from the issuing functions verify inside their window and not outside.
+// wallClock: VerifyOptions.CurrentTime left zero means "verify at the wall clock" (what the
+// transport handshakes do). The forest is rebuilt around the real present and only windows that
+// are at least 500 s away from it are used (valid: -1000..+1000 s, long expired: -1000..-500 s),
+// so the verdict cannot depend on how long the run takes.
+func wallClock(r *vk.Run) {
+	saved := t0
+	defer func() { t0 = saved }()
+	t0 = time.Unix(time.Now().Unix(), 0)
+	pos := map[string]int{}
+	for i, n := range dimNames {
+		pos[n] = i
+	}
+	for m := 0; m < 8; m++ {
+		for presented := 0; presented < dims[pos["presented"]]; presented++ {
+			ix := make([]int, len(dims))
+			for b, d := range []string{"leafWindow", "i1Window", "r1Window"} {
+				if m&(1<<b) != 0 {
+					ix[pos[d]] = 5
+				}
+			}
+			ix[pos["presented"]] = presented
+			r.Eval()
+			f := mkForest(ix)
+			want := refChain(f, t0)
+			got, detail, pn := verify(f, time.Time{})
+			id := "wall-clock:" + describe(ix)
+			if pn != "" {
+				r.Violation(id, "VerifyLeaf "+pn, ix)
+			} else if got != want {
+				r.Violation(id, fmt.Sprintf("CurrentTime left zero (verification at the wall clock): VerifyLeaf accepted=%v, reference valid=%v (%s)", got, want, detail), ix)
+			}
+			r.Distinct("wall" + fmt.Sprint(ix))
+		}
+	}
+}
+
 func positive(r *vk.Run) {
 	rootKey := keys.GenerateNewSigningKeyPair()
 	root, err := certs.SelfSignRoot(certs.SigningIdentity(rootKey), rootKey)
